@@ -67,7 +67,7 @@ def main():
 
     def fail(what, detail):
         cap = 1 if what.startswith("an executable-bit-only") else 3
-        if len(failures) < 10 and sum(1 for f in failures if f["what"] == what) < cap:
+        if len(failures) < 40 and sum(1 for f in failures if f["what"] == what) < cap:
             failures.append({"what": what, "detail": detail})
 
     def show(L_):
